@@ -1815,3 +1815,258 @@ Proof.
   - rewrite H1, H1'. apply foldX_perm, HP.
   - rewrite H2, H2'. apply foldS_perm, HP.
 Qed.
+
+(* ================================================================== *)
+(* 11. What a loaded tree reports exactly (finding C11-a made precise) *)
+(* ================================================================== *)
+
+(* every aggregator without a counted child has a cache satisfying Q *)
+Fixpoint exempt_all (Q : state -> bool) (t : rtree) : bool :=
+  match t with
+  | Leaf _ _ _ => true
+  | Agg s _ cs => (existsb counted cs || Q s) && forallb (exempt_all Q) cs
+  end.
+
+(* the opinions a loaded tree combines: the critical tasks' states, plus one STANDBY for every
+   aggregator that has no counted child *)
+Fixpoint opinions_loaded (t : rtree) : list state :=
+  match t with
+  | Leaf c s _ => if c then [s] else []
+  | Agg _ _ cs => if existsb counted cs then flat_map opinions_loaded cs else [STANDBY]
+  end.
+
+Lemma forallb_replace_nth {A} (f : A -> bool) i x l :
+  forallb f l = true -> f x = true -> forallb f (replace_nth i x l) = true.
+Proof.
+  revert i. induction l as [|a l IH]; intros [|i] Hl Hx; cbn in *; auto.
+  - apply andb_true_iff in Hl. destruct Hl as [_ Hl]. rewrite Hx, Hl. reflexivity.
+  - apply andb_true_iff in Hl. destruct Hl as [Ha Hl]. rewrite Ha, IH; auto.
+Qed.
+
+Lemma forallb_nth_error {A} (f : A -> bool) l i x :
+  forallb f l = true -> nth_error l i = Some x -> f x = true.
+Proof. intros H Hn. rewrite forallb_forall in H. apply H. eapply nth_error_In, Hn. Qed.
+
+Lemma upd_state_exempt Q : forall p v t,
+  exempt_all Q t = true -> exempt_all Q (fst (upd_state p v t)) = true.
+Proof.
+  induction p as [|i p IH]; intros v t H.
+  - destruct t; cbn; auto.
+  - destruct t as [c s x|s x cs]; [exact H|]. cbn [upd_state].
+    destruct (nth_error cs i) as [c|] eqn:Hn; [|exact H].
+    cbn [exempt_all] in H. apply andb_true_iff in H. destruct H as [H1 H2].
+    specialize (IH v c (forallb_nth_error _ _ _ _ H2 Hn)).
+    pose proof (upd_state_counted p v c) as Hcnt.
+    pose proof (upd_state_fwd_counted p v c) as Hfc.
+    destruct (upd_state p v c) as [c' f]. cbn [fst snd] in *.
+    destruct f as [inc|]; cbn [fst exempt_all];
+      rewrite (existsb_counted_replace cs i c c' Hn Hcnt);
+      rewrite (forallb_replace_nth _ i c' cs H2 IH), andb_true_r.
+    + rewrite (existsb_counted_nth cs i c Hn (Hfc inc eq_refl)). reflexivity.
+    + exact H1.
+Qed.
+
+Lemma upd_status_exempt Q : forall p v t,
+  exempt_all Q t = true -> exempt_all Q (fst (upd_status p v t)) = true.
+Proof.
+  induction p as [|i p IH]; intros v t H.
+  - destruct t; cbn; auto.
+  - destruct t as [c s x|s x cs]; [exact H|]. cbn [upd_status].
+    destruct (nth_error cs i) as [c|] eqn:Hn; [|exact H].
+    cbn [exempt_all] in H. apply andb_true_iff in H. destruct H as [H1 H2].
+    specialize (IH v c (forallb_nth_error _ _ _ _ H2 Hn)).
+    pose proof (upd_status_counted p v c) as Hcnt.
+    destruct (upd_status p v c) as [c' f]. cbn [fst snd] in *.
+    destruct f as [inc|]; cbn [fst exempt_all];
+      rewrite (existsb_counted_replace cs i c c' Hn Hcnt);
+      rewrite (forallb_replace_nth _ i c' cs H2 IH), andb_true_r; exact H1.
+Qed.
+
+Lemma run_ops_exempt Q ops : forall t,
+  exempt_all Q t = true -> exempt_all Q (run_ops ops t) = true.
+Proof.
+  induction ops as [|o ops IH]; intros t H; [exact H|].
+  cbn [run_ops fold_left]. fold (run_ops ops (apply_op o t)). apply IH.
+  destruct o; cbn [apply_op]; [apply upd_state_exempt|apply upd_status_exempt]; exact H.
+Qed.
+
+Lemma fresh_exempt t : exempt_all (state_beq STANDBY) (fresh t) = true.
+Proof.
+  induction t as [c s x|s x cs IH] using rtree_ind2; [reflexivity|].
+  cbn [fresh exempt_all]. rewrite orb_true_r. cbn [andb].
+  apply forallb_forall. intros c Hc. apply in_map_iff in Hc. destruct Hc as [c0 [<- Hc0]].
+  rewrite Forall_forall in IH. apply IH, Hc0.
+Qed.
+
+Lemma exempt_sub Q : forall p t n,
+  exempt_all Q t = true -> get_sub p t = Some n -> exempt_all Q n = true.
+Proof.
+  induction p as [|i p IH]; intros t n H Hg; cbn in Hg.
+  - inversion Hg; subst; exact H.
+  - destruct (nth_error (children t) i) as [c|] eqn:Hn; [|discriminate].
+    destruct t as [c0 s x|s x cs]; cbn in Hn; [destruct i; discriminate|].
+    cbn [exempt_all] in H. apply andb_true_iff in H. destruct H as [_ H2].
+    eapply IH; [|exact Hg]. eapply forallb_nth_error; eauto.
+Qed.
+
+Lemma deep_fold_loaded t :
+  Inv true t -> exempt_all (state_beq STANDBY) t = true ->
+  contrib t = foldX (opinions_loaded t).
+Proof.
+  induction t as [c s x|s x cs IH] using rtree_ind2; intros Hi He.
+  - unfold contrib. cbn [counted st_of opinions_loaded]. destruct c; [|reflexivity].
+    rewrite foldX_cons, foldX_nil, stateX_INV_r. reflexivity.
+  - apply Inv_Agg in Hi. destruct Hi as [Hs [_ Hcs]].
+    cbn [exempt_all] in He. apply andb_true_iff in He. destruct He as [He1 He2].
+    unfold contrib. cbn [counted st_of opinions_loaded].
+    destruct (existsb counted cs) eqn:Ec.
+    + destruct Hs as [[_ Hf]|Hs]; [discriminate|].
+      rewrite Hs, fold_state_contrib, foldX_flat_map. f_equal.
+      apply map_ext_in. intros c Hc.
+      rewrite Forall_forall in IH, Hcs. rewrite forallb_forall in He2.
+      apply IH; auto.
+    + cbn [orb] in He1. apply state_beq_eq in He1. subst s.
+      rewrite foldX_cons, foldX_nil, stateX_INV_r. reflexivity.
+Qed.
+
+(* every role of every loaded tree, after any sequence of updates *)
+Lemma loaded_actual t0 ops p n :
+  get_sub p (run_ops ops (fresh t0)) = Some n -> is_agg n = true ->
+  st_of n = spec_state (opinions_loaded n).
+Proof.
+  intros Hg Ha.
+  assert (Hi : Inv true n).
+  { eapply Inv_sub; [|exact Hg]. apply run_ops_Inv, fresh_weak. }
+  assert (He : exempt_all (state_beq STANDBY) n = true).
+  { eapply exempt_sub; [|exact Hg]. apply run_ops_exempt, fresh_exempt. }
+  rewrite <- foldX_spec, <- (deep_fold_loaded n Hi He).
+  destruct n; [discriminate|reflexivity].
+Qed.
+
+(* in particular no loaded tree ever shows an ERROR that no critical task has (sequentially) *)
+Lemma opinions_loaded_ERROR t : In ERROR (opinions_loaded t) -> In ERROR (crit_states t).
+Proof.
+  induction t as [c s x|s x cs IH] using rtree_ind2; [cbn; auto|].
+  cbn [opinions_loaded crit_states].
+  destruct (existsb counted cs).
+  - rewrite !in_flat_map. intros [c [Hc He]]. exists c. split; [exact Hc|].
+    rewrite Forall_forall in IH. apply IH; assumption.
+  - cbn. intros [H|[]]. discriminate.
+Qed.
+
+Lemma loaded_not_invented t0 ops p n :
+  get_sub p (run_ops ops (fresh t0)) = Some n -> is_agg n = true ->
+  st_of n = ERROR -> In ERROR (crit_states n).
+Proof.
+  intros Hg Ha Hs. rewrite (loaded_actual t0 ops p n Hg Ha) in Hs.
+  rewrite <- foldX_spec in Hs. apply foldX_ERROR in Hs. apply opinions_loaded_ERROR, Hs.
+Qed.
+
+Lemma crit_states_in_opinions t : In ERROR (crit_states t) -> In ERROR (opinions_loaded t).
+Proof.
+  induction t as [c s x|s x cs IH] using rtree_ind2; [cbn; auto|].
+  cbn [opinions_loaded crit_states].
+  destruct (existsb counted cs) eqn:Ec.
+  - rewrite !in_flat_map. intros [c [Hc He]]. exists c. split; [exact Hc|].
+    rewrite Forall_forall in IH. apply IH; assumption.
+  - rewrite in_flat_map. intros [c [Hc He]]. exfalso.
+    assert (Hcc : counted c = false).
+    { destruct (counted c) eqn:E; [|reflexivity].
+      assert (existsb counted cs = true) by (apply existsb_exists; eauto). congruence. }
+    destruct c as [cr s0 x0|? ? ?]; [|discriminate]. cbn in Hcc. subst cr. cbn in He. exact He.
+Qed.
+
+(* sequential updates on any loaded tree: a role reports ERROR exactly when a critical task
+   below it is in ERROR (C11-a does not touch this clause) *)
+Lemma loaded_error_iff t0 ops p n :
+  get_sub p (run_ops ops (fresh t0)) = Some n -> is_agg n = true ->
+  (st_of n = ERROR <-> In ERROR (crit_states n)).
+Proof.
+  intros Hg Ha. split; [apply (loaded_not_invented t0 ops p n Hg Ha)|].
+  intro H. rewrite (loaded_actual t0 ops p n Hg Ha), <- foldX_spec.
+  apply foldX_ERROR, crit_states_in_opinions, H.
+Qed.
+
+(* ================================================================== *)
+(* 12. Bridge: the monitor accepts every consistent tree               *)
+(* ================================================================== *)
+
+Lemma leafless_stats t : has_leaf t = false -> forall y, In y (leaf_stats t) -> y = UNDEFINED.
+Proof.
+  induction t as [c s x|s x cs IH] using rtree_ind2; [discriminate|].
+  intros H y Hy. destruct cs as [|c0 cs0].
+  - cbn in Hy. destruct Hy as [<-|[]]. reflexivity.
+  - rewrite leaf_stats_cons in Hy. apply in_flat_map in Hy. destruct Hy as [c [Hc Hy]].
+    rewrite Forall_forall in IH. apply (IH c Hc); [|exact Hy].
+    cbn [has_leaf] in H. destruct (has_leaf c) eqn:E; [|reflexivity].
+    assert (existsb has_leaf (c0 :: cs0) = true) by (apply existsb_exists; eauto). congruence.
+Qed.
+
+Lemma spec_status_all_UNDEF l : l <> [] -> (forall y, In y l -> y = UNDEFINED) ->
+  spec_status l = UNDEFINED.
+Proof.
+  intros Hl H. destruct l as [|a l]; [congruence|].
+  unfold spec_status. rewrite (H a (or_introl eq_refl)). reflexivity.
+Qed.
+
+Definition all_zero (l : list N) : Prop := Forall (fun c => c = 0) l.
+
+Lemma all_zero_app l1 l2 : all_zero l1 -> all_zero l2 -> all_zero (l1 ++ l2).
+Proof. unfold all_zero. intros. apply Forall_app. split; assumption. Qed.
+
+Lemma pick_code_zero l : all_zero l -> pick_code l = 0.
+Proof.
+  intro H. unfold pick_code.
+  assert (E : filter (fun c => memN c l) prio = []).
+  { assert (Hm : forall c, c <> 0 -> memN c l = false).
+    { intros c Hc. unfold memN. destruct (existsb (N.eqb c) l) eqn:E; [|reflexivity].
+      apply existsb_exists in E. destruct E as [y [Hy Hcy]]. apply N.eqb_eq in Hcy. subst y.
+      unfold all_zero in H. rewrite Forall_forall in H. specialize (H c Hy). contradiction. }
+    unfold prio. cbn [filter]. rewrite !Hm by discriminate. reflexivity. }
+  rewrite E. reflexivity.
+Qed.
+
+Lemma snap_codes_consistent t : Inv false t -> all_zero (snap_codes [] t).
+Proof.
+  induction t as [c s x|s x cs IH] using rtree_ind2; intro Hi; [constructor|].
+  destruct (deep_spec (Agg s x cs) [] (Agg s x cs) Hi eq_refl eq_refl) as [F1 F2].
+  cbn [st_of stat_of] in F1, F2.
+  pose proof Hi as Hi'. apply Inv_Agg in Hi'. destruct Hi' as [[[Hw _]|F3] [[[Hw' _]|F4] Hcs]]; try discriminate.
+  rewrite fold_state_text in F3. rewrite fold_status_text in F4.
+  cbn [snap_codes].
+  set (cst := crit_states (Agg s x cs)) in *.
+  assert (Herr : existsb (state_beq ERROR) cst = state_beq s ERROR).
+  { rewrite F1, <- foldX_spec.
+    destruct (existsb (state_beq ERROR) cst) eqn:E.
+    - apply existsb_ERROR_In, foldX_ERROR in E. rewrite E. reflexivity.
+    - symmetry. apply state_beq_neq. intro H. apply foldX_ERROR, existsb_ERROR_In in H. congruence. }
+  rewrite Herr.
+  assert (Hinv : state_beq s ERROR && negb (state_beq s ERROR) = false) by (destruct (state_beq s ERROR); reflexivity).
+  rewrite Hinv. cbn [andb].
+  apply all_zero_app; [|apply all_zero_app].
+  - (* 4, 5, 1, 6 *)
+    repeat constructor.
+    + rewrite <- F1, state_beq_refl. cbn. rewrite andb_false_r. reflexivity.
+    + rewrite <- F3, state_beq_refl. cbn. rewrite andb_false_r. reflexivity.
+  - (* 2, 14, 3/9, 10/15 *)
+    repeat constructor.
+    + rewrite <- F2, status_beq_refl. cbn. rewrite andb_false_r. reflexivity.
+    + rewrite <- F4, status_beq_refl. cbn. rewrite andb_false_r. reflexivity.
+    + unfold has_crit. fold cst. destruct cst as [|a r] eqn:Ec; [|reflexivity].
+      cbn [negb andb]. rewrite F1. reflexivity.
+    + destruct (has_leaf (Agg s x cs)) eqn:Hl; [reflexivity|]. cbn [negb].
+      assert (Hx : x = UNDEFINED).
+      { rewrite F2. apply spec_status_all_UNDEF; [apply leaf_stats_nonempty|].
+        apply leafless_stats, Hl. }
+      rewrite Hx. reflexivity.
+  - (* children *)
+    clear - IH Hcs. generalize 0%nat as i.
+    induction cs as [|c cs IHcs]; intro i; [constructor|].
+    inversion IH; subst. inversion Hcs; subst.
+    apply all_zero_app; [cbn [sub_paths flat_map]; auto|apply IHcs; assumption].
+Qed.
+
+(* after any sequence of updates from a consistent tree the monitor finds nothing *)
+Lemma monitor_accepts_model t ops :
+  Inv false t -> pick_code (snap_codes [] (run_ops ops t)) = 0.
+Proof. intro H. apply pick_code_zero, snap_codes_consistent, run_ops_Inv, H. Qed.
